@@ -2,7 +2,7 @@
 import os
 import subprocess
 
-from .. import extract, flow
+from .. import extract, flow, inline
 from ..facts import callee_def, callee_resolved, short
 from ..report import AnchorMissing
 
@@ -75,7 +75,9 @@ def rule_r1(chk, db, sk):
         for b in bs:
             bad = [callee_def(t) for x in db.nested(b) for _, t in x.calls() if callee_def(t) == sk + "::expose"]
             consts = [c for x in db.nested(b) for bl in x.blocks if not bl["cleanup"] for st in bl["stmts"] for c in st["rv"]["ops"] if isinstance(c, dict) and c.get("c") == "item"]
-            ph = any(short(c["def"]) == "PLACEHOLDER" for c in consts)
+            # what it does print is constant text: a string constant of the crate (whatever it is called) or a literal
+            ph = any(db.const_str(c["def"]) for c in consts if c["def"].startswith("s3s::")) or \
+                any(isinstance(a, dict) and a.get("c") == "str" for x in db.nested(b) for _, t in x.calls() for a in t["args"])
             chk.verdict(not bad and ph, "R1", "redacting:" + tr, b.loc(), "the %s impl of SecretKey must emit only the placeholder (expose calls: %d, placeholder used: %s)" % (tr, len(bad), ph))
 
 
@@ -132,8 +134,16 @@ class Taint:
 
 
 def rule_r2(chk, db, sk, crates):
-    sites = db.callers_of(sk + "::expose")
-    sites = [(b, bi, t) for b, bi, t in sites if b.crate in crates]
+    # every body that exposes the secret, studied with its private helpers inlined: a helper that builds the key buffer and hands it back is
+    # part of the function that uses (and wipes) it
+    def exposes(b):
+        return any(callee_def(t) == sk + "::expose" for _, t in b.calls())
+    direct = []
+    for b, bi, t in db.callers_of(sk + "::expose"):
+        if b.crate in crates and b not in direct:
+            direct.append(b)
+    roots = inline.roots_with(db, direct, exposes)
+    sites = [(b, bi, t) for b in roots for bi, t in b.calls() if callee_def(t) == sk + "::expose"]
     chk.floor("R2", len(sites), 2, "SecretKey::expose call sites")
     for b, bi, t in sites:
         root = db.root_of(b)
